@@ -37,7 +37,7 @@ ANY_TRUSTED = [
     "maps / slices with a CONCRETE element type (map[string]int32, []string, map[string]map[string]T ...) are GMap / GArr terms whose members "
     "are not interfaces (reflect boxes each member on access): the model needs no extra constructor, the driver's toGval walk writes them; "
     "CYCLIC Go values (var p any; p = &p; type loop *loop; pointers leading into a cycle) and a 64-level pointer chain cannot be / are not "
-    "written as finite gval terms: that stream is decided by the property oracle on the implementation only (every read under a 2 s "
+    "written as finite gval terms: that stream is decided by the property oracle on the implementation only (every read under a 3 s "
     "deadline: the call must return an error or a value; a read that does not return is the failing input `any:hang`)",
 ]
 ANY_ASSUME = [
